@@ -6,9 +6,10 @@
  "mode": "harness",
  "unwind": 12, "unwindset": ["attrspec.0:5", "parseattr.0:7", "harness.0:4"],
  "cflags": ["-DV_N=2", "-DV_SYNTAX"],
+ "cbmc_flags": ["--sat-solver", "cadical"],
  "kind": "bounded",
  "bound": "`[[ e0 e1 ]] ;` with e0, e1 as in ATTR.attrspec, restricted to the two ill-formed classes: (a) two attributes not separated by a comma (`[[foo foo]]`, `[[gnu::packed foo(1)]]`), (b) an argument clause that is not a balanced-token-sequence: `foo({])`, `foo(])`, `foo([)])`",
- "timeout": 200, "replay": false,
+ "timeout": 600, "replay": false,
  "assumes": ["FAILS on the pinned tree (genuine defect, two causes): attrspec() loops `while (parseattr(..) || consume(TCOMMA))`, so a comma between attributes is optional: `[[foo bar]] int z;` and `struct [[gnu::packed gnu::packed]] S {...}` compile (gcc/clang: expected ']' or ','); parseattr() skips an argument clause counting parentheses only: `[[foo(])]] int x;` and `[[foo({])]] int x;` compile (C23 6.7.12.1: balanced-token-sequence; gcc/clang reject).  Exit status 0 in all cases",
              "stand-ins as in ATTR.attrspec (attr_common2.h); the harness is that of attrspec.c compiled with -DV_SYNTAX"]
 }
